@@ -65,4 +65,10 @@ class StochasticFiniteStateController(POMDPPolicy):
     def next_agentstate(self, ag : AgentState, a : Action, o : Observation) -> AgentState:
         oi = self.pomdp.observation_index[o]
         ai = self.pomdp.action_list.index(a)
-        return ag @ self.observation_strategy[:, ai, oi]
+        # the node distribution is conditioned on the action that was taken
+        weights = ag * self.action_strategy[:, ai]
+        next_ag = weights @ self.observation_strategy[:, ai, oi]
+        total = next_ag.sum()
+        if total == 0:
+            return next_ag
+        return next_ag / total
